@@ -11,6 +11,7 @@ exactly the first active edge with an active property whose test is zero, carryi
 """
 import contextlib
 import io
+import json
 import itertools
 import warnings
 
@@ -658,15 +659,17 @@ def format_tasks(rep):
     nspecs = len(set(specs) | set(braces))
     for (w, sg) in G.SHAPES_QUICK:
         vals = G.values_for(w, sg, rep.tier)
-        avals = vals if not rep.quick else sorted(set(vals[:2] + vals[-2:] + [v for v in vals if v in (0, -1, 10, 0x41, 0x4241, 0xAC82E2)]))
+        corner = sorted(set(vals[:2] + vals[-2:] + [v for v in vals if v in (0, -1, 10, 0x41, 0x4241, 0xAC82E2)]))
         for form in ("sig", "inv", "reinterp"):
             if form == "reinterp" and w == 0:
                 continue
+            # Assert messages: quick tier corner values; thorough tier all values (8-bit secondary forms: corner values)
+            avals = corner if (rep.quick or (w == 8 and form != "sig")) else vals
             # quick tier: the secondary operand forms get the reduced alphabet
             alphabet = specs if (form == "sig" or not rep.quick) else reduced
             for ch in chunks(alphabet, 3500):
                 tasks.append(("format", (w, sg, form, ch, vals, avals, rep.tier), rep.tier))
-        tasks.append(("format", (w, sg, "sig", braces, vals[:3] + vals[-1:], avals[:1], rep.tier), rep.tier))
+        tasks.append(("format", (w, sg, "sig", braces, vals[:3] + vals[-1:], corner[:1], rep.tier), rep.tier))
     return tasks, nspecs
 
 
@@ -680,7 +683,9 @@ def timing_tasks(rep):
         # other domain of the design holds the program half-way across the list
         other = descs[(i + n // 2) % n]
         desc = {"p": d, "n": other, "reg_hole": i}
-        plan = [(0, 0, L)] + [(c, k, L - 1) for c in range(4) for k in range(2) if (c, k) != (0, 0)]
+        # thorough tier: the nested programs of the second condition rotation keep the quick-tier length
+        Ld = L - 1 if (not rep.quick and d[1] is not None and d[3] >= 1) else L
+        plan = [(0, 0, Ld)] + [(c, k, Ld - 1) for c in range(4) for k in range(2) if (c, k) != (0, 0)]
         tasks.append(("timing", (desc, plan, rep.pick(1, 3)), rep.tier))
     # asynchronous reset of the rising-edge domain (no falling-edge program; mask bit 2 toggles the reset)
     for outer in ("bare", "ifelse", "sw_default"):
@@ -697,6 +702,7 @@ def run(rep):
         rep.require(not R.python_accepts(s) and not R.grammar_accepts(s, 8, False), f"malformed specification {s!r} is not invalid")
     tasks = rotate(ttasks + ftasks, rep.seed)
     walls = {}
+    by_part = {}
     for part in pmap(_dispatch_timed, tasks, rep.procs):
         kind, out, wall = part
         walls[kind] = walls.get(kind, 0) + wall
@@ -705,7 +711,12 @@ def run(rep):
             cur = rep.cov.setdefault("reject_classes", {})
             for k, v in rc.items():
                 cur[k] = cur.get(k, 0) + v
+        for smp in out.pop("samples", []):
+            by_part.setdefault(smp.get("part"), []).append(smp)
         rep.merge(out)
+    for part_samples in by_part.values():
+        for smp in sorted(part_samples, key=lambda x: json.dumps(x, sort_keys=True, default=str))[:5]:
+            rep.sample(smp)
     _interleave(rep)
     rep.setcov("specifications", nspecs)
     rep.setcov("cpu_seconds_by_part", {k: round(v, 1) for k, v in walls.items()})
@@ -721,7 +732,8 @@ def run(rep):
                "(extensions of a sequence that ended in an AssertionError are not run), each one a separate Simulator.run(). "
                "distinct_nontrivial = accepted (spec, operand, value) triples whose expected text differs from str(value), plus timing "
                "designs with at least one active edge")
-    rep.setcov("timing_sequence_length", {"register_init_0": rep.pick(3, 4), "other_register_inits": rep.pick(2, 3)})
+    rep.setcov("timing_sequence_length", {"register_init_0": rep.pick(3, 4), "other_register_inits": rep.pick(2, 3),
+                                          "note": "thorough: nested programs of condition rotation 1 use 3 / 2"})
     # crashed / timed-out tasks are reported as violations; the coverage guards are meaningless then
     guards = not (rep.cov.get("tasks_crashed", 0) or rep.cov.get("tasks_timed_out", 0))
     rep.require(not guards or rep.cov.get("accepted", 0) > 0 and rep.cov.get("rejected", 0) > 0, "both accepted and rejected specifications")
